@@ -1,3 +1,5 @@
+//go:build verif
+
 package checks
 
 // C15 — environment (populated nodes), tiny independent RLP codec, fake-peer sessions.
